@@ -160,3 +160,38 @@ func checkGenericTree(toks []lexer.Token) {
 	verif.Assert(sameTree(root, tree, toks), "the parse tree is not the derivation tree of the documented grammar over the input tokens")
 	_ = grammar.Endmarker
 }
+
+// VerifDirectiveTokens: the fixed specification
+//     grammar g ; TK = "k" ; start = "s" TK ;
+// followed by k arbitrary tokens (the place where directives and further declarations go).  Lexemes of
+// the arbitrary part are chosen so that references resolve: an IDENT is "start", a TOKEN is "TK", a
+// STRING at position i is "s<i>" (string literals define themselves), a PREDEF is a predefined name.
+func VerifDirectiveTokens(k int) ([]lexer.Token, int) {
+	fixedKinds := []string{"grammar", "IDENT", ";", "TOKEN", "=", "STRING", ";", "IDENT", "=", "STRING", "TOKEN", ";"}
+	fixedLex := []string{"grammar", "g", ";", "TK", "=", "k", ";", "start", "=", "s", "TK", ";"}
+	toks := make([]lexer.Token, 0, len(fixedKinds)+k)
+	for i := range fixedKinds {
+		toks = append(toks, lexer.Token{Terminal: grammar.Terminal(fixedKinds[i]), Lexeme: fixedLex[i],
+			Pos: lexer.Position{Filename: "f", Offset: 1000 + i, Line: 50 + i, Column: 3}})
+	}
+	body := symTokens(k)
+	for i := range body {
+		to := make([]string, len(lrTermNames))
+		for j, n := range lrTermNames {
+			switch n {
+			case "IDENT":
+				to[j] = "start"
+			case "TOKEN":
+				to[j] = "TK"
+			case "STRING":
+				to[j] = "s" + vitoa(i)
+			case "PREDEF":
+				to[j] = verifPredefKeys[i%len(verifPredefKeys)]
+			default:
+				to[j] = body[i].Lexeme
+			}
+		}
+		body[i].Lexeme = verif.EnumMap(string(body[i].Terminal), lrTermNames, to)
+	}
+	return append(toks, body...), len(fixedKinds)
+}
